@@ -274,6 +274,7 @@ def parse_sim_file(path: str) -> list:
             if not part or ' = ' not in part:
                 continue
             var, val = part.split(' = ', 1)
+            val = re.split(r'\n\s*\n|\n=+', val, 1)[0]   # the last variable of the last state is followed by a trailer
             try:
                 st[var.strip()] = parse_value(val.strip())
             except ValueError:
